@@ -1,5 +1,34 @@
 /-
 C03 FOR THE WHOLE PROGRAM: a damaged, undecryptable or foreign flow never aborts the run and never disturbs the others.
+Theorems about `TLX.Export.framesFrom` / `exportFile`, for every hash suite, cipher primitives, mask, options, key log.
+
+1. BYSTANDERS, TLS and QUIC   `export_bystander_unaffected_quic` (items), `export_bystander_unaffected_quic_file` (two
+   capture files, either container). The victim: any choice of frames with arbitrary content. The capture without the
+   victim keeps every secrets block. Exclusions, each real: a TCP flow shared with a bystander (`hflow`); a QUIC routing
+   collision, either way (`hBV`, `hVB`: `CaptureSeparated` of `ExportDemux` — same 4-tuple, or a datagram carrying / starting
+   with a connection ID the other side's sessions hold; `ExportDemuxEx.Ex.prefix_cross_routing`); a frame on which the
+   reader or dpkt raises (the read loop dies: `Export.export_abort_ingest_iff`); key lines brought in a secrets block of the
+   victim's own (`ExportInputs.export_bystander_unaffected`, `hk`).
+2. NEVER ABORTS   `sessions_never_raise`, `payloads_never_abort`: once the read loop is through (nothing there looks inside
+   a TCP / UDP payload) the run writes its file, or the writer raises on a FIELD range (`Writable`); no payload content,
+   no key-log text, no session can abort it. Robustness observations outside the model's inputs (replayed on the real
+   tool): a `-s` file that is not valid UTF-8 (a latin-1 comment) → UnicodeDecodeError before anything is written; the
+   six dpkt exception classes of `Dissect.DErr`; a non-ASCII secrets block.
+3. PREFIX CLAUSE   `tls_prefix_of_view`, `export_victim_cut_tls` (frame-by-frame prefix per conversation ⇒ byte prefix per
+   direction, `dirBytes_prefix`), `export_victim_cut_quic` (`CutRel` per session). The fault kinds of harness/c03.py
+   `make_faults`:
+     cut-after                      sections 1 + 3 (TLS and QUIC victims)                                      theorem
+     whole capture cut              `ExportProps.export_cut_prefix_tls*`, `ExportPropsQuic.export_cut_prefix_quic*`  theorem
+     bitflip, overwrite, shorten, unknown-suite, http-on-443, udp-noise, wrong-keys, drop-keys, no-keys
+                                    never-abort: section 2 (the rebuilt frames dissect); bystanders: section 1
+                                    (for a QUIC victim as long as the damaged datagram stays separated);
+                                    what the VICTIM then exports: oracle only
+     delete (one packet missing), cut-before (capture starts mid-connection)
+                                    never-abort + bystanders as above; the victim's prefix (TLS: the reassembler stalls
+                                    at the hole; QUIC: the remaining datagrams are a subsequence): oracle only — needs a
+                                    "hole ⇒ nothing released behind it" theorem about `Reassembly`, resp. per-datagram
+                                    independence of `Quic.Session`, neither proved.
+Instances: `Props/ExportFaultsEx.lean`.
 -/
 import TLX.Props.ExportDemux
 set_option linter.unusedSimpArgs false
